@@ -149,6 +149,47 @@ struct Ctx {
     full_proofs: bool,
 }
 
+/// The TIP-911 view of a stake set (ordered stake list and its dense Merkle root) is a function of the set's contents: the same
+/// documents put into independently built sets, in different insertion orders, give the same list and the same root.
+fn tip911_view(run: &Run) {
+    use tip911_stakeset::StakeSet;
+    let doc = |k: u8, start: u64, end: u64, syms: u128| StakeDoc { pubkey: key(k).0, e_start: start, e_post_end: end, syms_staked: CoinValue(syms) };
+    let mut families: Vec<(String, Vec<(TxHash, StakeDoc)>)> = vec![];
+    // equal sizes (the order among them must be fixed by the transaction hashes), distinct sizes, mixed epochs
+    families.push(("ten equal stakes".into(), (0..10u8).map(|i| (TxHash(HashVal([i.wrapping_mul(37).wrapping_add(3); 32])), doc(i, 0, 100, 10_000_000_000))).collect()));
+    families.push(("distinct sizes".into(), (0..6u8).map(|i| (TxHash(HashVal([i + 1; 32])), doc(i, 0, 5, 100 + i as u128))).collect()));
+    families.push(("pairs of equal sizes, mixed epochs".into(), (0..8u8).map(|i| (TxHash(HashVal([200 - i; 32])), doc(i % 3, (i % 2) as u64, 3 + (i % 3) as u64, 5 + (i / 2) as u128))).collect()));
+    families.push(("the standard testnet genesis".into(), melstf::GenesisConfig::std_testnet().stakes.into_iter().collect()));
+    for (name, docs) in families {
+        for epoch in [0u64, 1, 2] {
+            let views: Vec<_> = (0..4)
+                .map(|round| {
+                    let mut d = docs.clone();
+                    d.rotate_left(round % docs.len().max(1));
+                    if round % 2 == 1 {
+                        d.reverse();
+                    }
+                    let set = StakeSet::new(d.into_iter());
+                    let v = set.post_tip911(epoch);
+                    (v.stakes.iter().map(|(h, _)| *h).collect::<Vec<_>>(), v.calculate_merkle().root_hash(), v.current_total, v.next_total)
+                })
+                .collect();
+            run.transition();
+            run.validated();
+            if views.iter().any(|v| *v != views[0]) {
+                run.violation(
+                    "C07",
+                    "tip911-stake-view-not-a-function-of-content".into(),
+                    format!("{} at epoch {}: independently built stake sets holding the same documents give different TIP-911 orders / roots", name, epoch),
+                    json!({"family": name, "epoch": epoch, "documents": docs.len()}),
+                );
+            } else {
+                run.outcome("tip911-view:same");
+            }
+        }
+    }
+}
+
 fn check_sealed(run: &Run, ctx: &Ctx, n: &Node) {
     let s = match &n.real {
         Real::Sealed(s) => s,
@@ -489,6 +530,7 @@ pub fn run(run: &Run) {
         run.set(&format!("scenario:{}", sc.name), json!({"depth_bound_completed": st.depth_completed, "unique_states": st.states, "transitions": st.transitions}));
         println!("  scenario {}: depth {} states {} transitions {}", sc.name, st.depth_completed, st.states, st.transitions);
     }
+    tip911_view(run);
     // stakes expiring across epoch boundaries (the stake commitment must follow the registered, unexpired stakes)
     {
         let mut stakes = BTreeMap::new();
